@@ -28,7 +28,7 @@ ASSUMPTIONS = [
 ]
 DEGRADED = set()
 MIXINGS = [0.125, 0.5, 0.875, 1.0]
-REGS = ["default", "linreg", "pre+W"]
+REGS = ["default", "linreg", "pre+W", "linreg-fitted-elsewhere"]
 
 
 def bounds(tier, seed):
@@ -62,6 +62,10 @@ def cases(group):
                         if spec.startswith("pre") and not isinstance(Yf[0], list):
                             continue
                         yield dict(X=X, Y=Yf, mixing=mixing, space=space, reg=spec)
+                        if group["label"].startswith("I") and spec in ("default", "linreg"):
+                            yield dict(X=X, Y=Yf, mixing=mixing, space=space, reg=spec, int_dtype=True)
+                        if spec == "default" and isinstance(Yf[0], list):
+                            yield dict(X=X, Y=Yf, mixing=mixing, space=space, reg=spec, solver="arpack")
                         if group["label"].startswith("G") and mixing == 0.5 and isinstance(Yf[0], list):
                             yield dict(X=X, Y=Yf, mixing=mixing, space=space, reg=spec, prefit=True)
 
@@ -89,7 +93,10 @@ def check(case):
     nested_pairs = 0
     prev_lx = prev_ly = None
     for k in range(1, min(n, m) + 1):
-        est, exc = pcov.fit_pcovr(X, Y, mixing, k, spec, space, "full", prefit=bool(case.get("prefit")))
+        solver = case.get("solver", "full")
+        if solver == "arpack" and k >= min(n, m):
+            break
+        est, exc = pcov.fit_pcovr(X, Y, mixing, k, spec, space, solver, prefit=bool(case.get("prefit")), int_dtype=bool(case.get("int_dtype")))
         r.transitions += 1
         if exc is not None:
             r.fail("crash:%s" % type(exc).__name__, "k=%d: %r" % (k, exc))
